@@ -958,6 +958,20 @@ class CombinedMultiDict(ImmutableMultiDictMixin[K, V], MultiDict[K, V]):  # type
                 return True
         return False
 
+    def __eq__(self, other: object) -> bool:
+        # The underlying dict is empty, compare what the wrapped dicts hold.
+        if isinstance(other, CombinedMultiDict):
+            other = dict(other.lists())
+
+        return dict(self.lists()) == other
+
+    def __ne__(self, other: object) -> bool:
+        return not self == other
+
+    def __hash__(self) -> int:
+        # Not cached, the wrapped dicts can change.
+        return hash(frozenset(self.items(multi=True)))
+
     def __repr__(self) -> str:
         return f"{type(self).__name__}({self.dicts!r})"
 
